@@ -3,6 +3,7 @@
 // Pasted verbatim on every run:
 //   /repo src/webauthn.rs        fn deserialize_from_str_and_skip_if_too_long   (user.icon)
 //                                fn deserialize_from_str_and_truncate           (rp.name, user.name, user.displayName)
+//                                pub struct Icon, impl Deserialize for Icon     (rp.icon: any text accepted and discarded)
 //   heapless 0.7 src/string.rs   pub struct String<N>, String::new, String::push_str, <String<N> as FromStr>::from_str
 // Scaffolding: a serde `Deserializer` with a ghost model of the one CBOR item it holds (null / a text / anything else,
 // and it may fail), the `Deserialize` contracts of `&str` and `Option<&str>` over that model (serde's impls: a text is
@@ -96,7 +97,7 @@ pub mod serde {
     }
     }
 }
-use crate::serde::{Deserialize, Item};
+use crate::serde::{Deserialize, Deserializer, Item};
 
 // ---- the contract of `truncate` ---------------------------------------------------------------
 /// "k is a character boundary of the text": by the UTF-8 encoding table (a byte that starts a character is not 10xxxxxx)
@@ -227,6 +228,17 @@ fn str_prefix__(s: &str, k: usize) -> (r: &str)
             }),
 @*/
 //@extract src/webauthn.rs :: ^fn deserialize_from_str_and_truncate :: contracts=deserialize_from_str_and_truncate:and_truncate
+
+// ---- the relying-party icon: parsed, never stored ---------------------------------------------
+/*@contract icon_deserialize
+        ensures
+            // C13: a relying-party icon of ANY length is accepted (and discarded: `Icon` has no fields) ...
+            deserializer.infallible() && deserializer.item() is Text ==> r is Ok,
+            // ... and only a text is
+            r is Ok ==> deserializer.item() is Text,
+@*/
+//@extract src/webauthn.rs :: ^pub struct Icon; :: noderive
+//@extract src/webauthn.rs :: ^impl<'de> Deserialize<'de> for Icon :: contracts=deserialize:icon_deserialize
 
 /// consequence spelled out (the property's own words): a name that fits its capacity is decoded unchanged
 proof fn ob_C13_fitting_text_unchanged(text: Seq<u8>, out: Seq<u8>, limit: int)
